@@ -60,7 +60,7 @@ def generate(rng, tier):
             keys = rng.sample(["a", "b", "_tag_"], rng.randint(1, 3))
             arg = [(k, rng.choice([1, -1])) for k in keys]
         elif op == "unique": arg = rng.choice([["a"], ["b"], ["a", "b"], [], ["_tag_"]])
-        elif op in ("select", "unselect"): arg = rng.sample(["_tag_", "a", "b", "c", "d", "zz"], rng.randint(1, 3))
+        elif op in ("select", "unselect"): arg = rng.sample(["_tag_", "a", "b", "c", "d", "zz"], rng.choice([1, 2, 3, 3, 5, 6]))
         elif op == "rename": arg = rng.choice([[("aa", "a")], [("bb", "b"), ("cc", "c")], [("q", "d")], [("nn", "missing")],
                                                [("a", "b"), ("b", "a")], [("b", "a"), ("c2", "b")], [("b", "a"), ("a", "b")], [("c", "a"), ("a", "b"), ("b", "c")]])
         elif op in ("modify", "modify_if"): arg = rng.choice(["double_tag", "set_flag"])
@@ -204,7 +204,10 @@ def apply(di, data, op, arg):
     if op == "extend":
         items = [dict(x) for x in arg]
         # any iterable of dicts, as for list.extend: list, tuple, one-shot iterators
-        form = len(repr(arg)) % 5
+        form = len(repr(arg)) % 6
+        if form == 5 and items:
+            # a sequence that starts with an item carried over from another ListOfDicts (already an attribute dict), followed by plain dicts
+            return data.extend([di.ListOfDicts([items[0]])[0]] + items[1:])
         return data.extend(items if form < 2 else (tuple(items) if form == 2 else (iter(items) if form == 3 else (x for x in items))))
     if op == "insert":
         pos, item = arg
@@ -290,6 +293,9 @@ def execute(case):
             res.violate(f"{name}:not-a-ListOfDicts", f"step {step} {op} returned {type(out)}")
             return res.dict()
         got = [dict(x) for x in list.__iter__(out)]
+        if got == exp and op == "select" and [list(g) for g in got] != [list(e) for e in exp]:
+            res.violate("select:keys-not-in-requested-order", f"step {step} select({arg!r}): key order {[list(g) for g in got][:3]} expected {[list(e) for e in exp][:3]}")
+            return res.dict()
         if got != exp:
             tags_g = [x.get("_tag_") for x in got]
             tags_e = [x.get("_tag_") for x in exp]
